@@ -15,7 +15,8 @@ SPEC = dict(
           "non-trivial+distinct = distinct (len before, len after, zero-padded?, pattern) transitions"),
     assumptions=["R3 (ref.next_build) is the README's lexical-id successor; ids that are all 9s are the documented "
                  "maximum and are only required not to be 'bumped' to a smaller/equal value"],
-    required=["single_steps", "chain_steps", "expansion:4->5", "expansion:5->6", "expansion:6->7"],
+    required=["single_steps", "chain_steps", "expansion:4->5", "expansion:5->6", "expansion:6->7",
+              "chain_steps_with_other_flags"],
     anchors=[("v2version", "_incr_numeric"), ("v2version", "parse_field_values_to_vinfo"), ("v2patterns", "_fmt_bld")],
     exhaustive={"quick": True, "thorough": True},
     exhaustive_note="start ids of 1..4 (quick) / 1..5 (thorough) digits are enumerated completely; chains and 6-7 digit "
@@ -52,14 +53,28 @@ def cases(ctx):
                "bld": R.random() < 0.25}
 
 
-def step(ctx, pat, tmpl, b):
+EXTRA_FLAGS = {
+    "vYYYY0M.BUILD[-TAG]": [[], [], ["--pin-increments"], ["--pin-increments", "--tag", "rc"], ["--tag", "beta"],
+                            ["--pin-increments", "--tag", "beta"]],
+    "MAJOR.BUILD": [[], [], ["--major"], ["--major", "--pin-increments"]],
+    "YYYY.BUILD": [[], [], ["--pin-increments"]],
+    "BUILD": [[], ["--pin-increments"]],
+}
+
+
+def step(ctx, pat, tmpl, b, extra=()):
     """one real bump; returns new BUILD text or None"""
     old = tmpl.format(b=b)
-    res = harness.invoke(["test", old, pat, "--pin-date"])
+    res = harness.invoke(["test", old, pat, "--pin-date"] + list(extra))
     if res.exit_code != 0:
         return None, res
     new = res.stdout_value("New Version: ")
     pre, _, post = tmpl.partition("{b}")
+    if extra and new:
+        # other parts may change as well: read the BUILD part through the pattern
+        raw = ref.parse(ref.parse_pattern(pat), new)
+        got = [t for n, t in (raw or []) if n == "BUILD"]
+        return (got[0] if got else None), res
     if not new or not new.startswith(pre) or not new.endswith(post):
         return None, res
     return new[len(pre):len(new) - len(post)] if post else new[len(pre):], res
@@ -111,8 +126,34 @@ def run_case(ctx, case):
         b = str(int(b) or 1)
     generated = False
     trail = [b]
+    R = random.Random(f"{case['start']}:{case['pat']}")
+    cur_version = None
     for i in range(case["steps"]):
-        nb, res = step(ctx, pat, tmpl, b)
+        extra = R.choice(EXTRA_FLAGS.get(pat, [[]])) if not case.get("bld") else []
+        if extra:
+            # feed the full previous output back (the tag / MAJOR part may have changed)
+            old = cur_version or tmpl.format(b=b)
+            res = harness.invoke(["test", old, pat, "--pin-date"] + extra)
+            new = res.stdout_value("New Version: ") if res.exit_code == 0 else None
+            raw = ref.parse(ref.parse_pattern(pat), new) if new else None
+            nbs = [t for n, t in (raw or []) if n == "BUILD"]
+            nb = nbs[0] if nbs else None
+            if extra == ["--pin-increments"] and nb is None and res.exit_code != 0:
+                # nothing but BUILD could change and BUILD is not an INC part: a refusal here means BUILD was pinned
+                pass
+            if new:
+                cur_version = new
+            ctx.count("chain_steps_with_other_flags")
+        elif cur_version is not None:
+            res = harness.invoke(["test", cur_version, pat, "--pin-date"])
+            new = res.stdout_value("New Version: ") if res.exit_code == 0 else None
+            raw = ref.parse(ref.parse_pattern(pat), new) if new else None
+            nbs = [t for n, t in (raw or []) if n == "BUILD"]
+            nb = nbs[0] if nbs else None
+            if new:
+                cur_version = new
+        else:
+            nb, res = step(ctx, pat, tmpl, b)
         ctx.count("chain_steps")
         ctx.evaluated((len(b), len(nb) if nb else -1, b[0] == "0", pat, "chain"))
         judge(ctx, dict(case, at=b, step=i), b, nb, res, generated)
